@@ -21,4 +21,7 @@ ProgE == (1 :> <<[key |-> "A", plan |-> "pA"], [key |-> "B", plan |-> "pB"]>>) @
 ProgF == (1 :> <<[key |-> "A", plan |-> "pA"]>>) @@ (2 :> <<[key |-> "A", plan |-> "pA"]>>) @@
          (3 :> <<[key |-> "B", plan |-> "pB"]>>) @@ (4 :> <<[key |-> "C", plan |-> "pC"]>>) @@
          (5 :> <<[key |-> "B", plan |-> "pB"]>>)
+\* negative control: a cache key that forgets an argument (two different plans filed under one key) - ReturnsOwnPlan and
+\* PlanInHand must be violated, which shows the invariants are not vacuous on the instances above
+ProgBad == (1 :> <<[key |-> "A", plan |-> "pA"]>>) @@ (2 :> <<[key |-> "A", plan |-> "pA2"]>>)
 =============================================================================
